@@ -37,6 +37,16 @@ CLAIMED = {
          "selector of 1..4 type codes (0 = any) matches a stack profile iff the top k type codes agree.",
          "The word implementations themselves (length, elem, relem, add, ?find, ?starts, ?ends, ?match, value, hex/dec/oct/bin, type, pos, shuffles) "
          "are NOT covered: they are overload instantiations over std::string / std::vector heaps that were not reached (DESIGN 0.4).", '0.3'),
+ 'C12': ("Kernel only (clause: executions never influence one another, whether consumed fully, interleaved or abandoned): over ONE real operator "
+         "graph -- ALT (op_merge/op_tine), OR (op_or), sub-expression (op_subx) of op.cc wired as build.cc wires them, between protocol stubs -- two "
+         "executions with their own state areas (scon over the graph's layout, as zw_result holds it) on the same, disjoint or overlapping input "
+         "stacks, pulled alternately from either side, one after the other, with one side abandoned after one pull and torn down first, or one side "
+         "suspended, each yield exactly the result sequence (values, order, depth, position) of a fresh run on the same input; an abandoned execution "
+         "yields a prefix of it. 2 input stacks, <= 1 result per input and sub-expression, payload tokens symbolic; quick: 36 selected scenarios per "
+         "graph, thorough: all 720 (two sub-expressions) / 180.",
+         "NOT covered: compiling the same text twice, zw_result/zw_query_execute (they are exercised by the C14 API kernel over a stub operator), "
+         "closures and blocks (op_apply, op_tr_closure), value_seq deep copies, cache.cc / DWARF values reused across executions, three live result "
+         "sets (DESIGN 0.3/0.4).", '0.3'),
  'C13': ("(1) layout::reserve/add_union: every series of 4 reservations (size 1..64, alignment 1..16) yields aligned, pairwise disjoint locations "
          "inside size(), add_union takes the maximum -- no two live states overlap in the shared area. (1b) pred_subx_any / scon_guard destroy the state "
          "of a sub-expression exactly once, also when the sub-expression throws. (2) The real ALT / OR (thorough: also "
@@ -101,7 +111,6 @@ NA = {
  'C06': "needs the libdw contract model and attribute_producer's vector/scheduling heap; not reached (DESIGN 7)",
  'C07': "at_value's form dispatch calls into libdw at every step; only leaf kernels would be encodable and were not reached (DESIGN 7)",
  'C10': "op_tr_closure keeps a std::set<shared_ptr<stack>> ordered by value comparison: control depends on symbolic data, and CBMC's symbolic execution of merged C++ heap states did not terminate (DESIGN 2.5)",
- 'C12': "needs two state buffers over one operator graph with a symbolic schedule, i.e. merged control over the C++ heap, which CBMC's symbolic execution does not get through (DESIGN 2.5)",
  'C15': "needs lexer/parser and execution of both sides; tree::simplify over vector<tree> not reached (DESIGN 7)",
  'C19': "main() of the CLI is a 400-line monolith behind getopt/iostream/file I/O; the observables are the effects of those externals (DESIGN 7)",
 }
